@@ -750,13 +750,14 @@ class TrajectoryStore:
                 'All trajectories in an indexable TrajectoryStore must have '
                 'flight_id field, and non-indexable stores must not have it'
             )
-        if self.indexable is None:
-            self.indexable = has_flight_id
 
-        # Maintain count of trajectories in store for indexing.
+        # Maintain count of trajectories in store for indexing. (The cache may
+        # still refuse the trajectory, so nothing is decided before it is in.)
         saved_index = self._next_index
         self._trajectories[saved_index] = trajectory
         self._next_index += 1
+        if self.indexable is None:
+            self.indexable = has_flight_id
 
         # If this is the first trajectory added to the store, we might need to
         # create the NetCDF files.
